@@ -64,6 +64,15 @@ def systematic():
         for named in (False, True):
             vs = [clone_v(ORD[0]), Variant("Both", "named" if named else "tuple", [Field("String", "inner" if named else "")], list(ms)), clone_v(ORD[2])]
             items.append(("default-transparent", Item("E", vs, metas=[EM("prefix", "pf.")] if j == 3 else [])))
+    # default AND default_with on one variant (variant level, field level): the catch-all still captures the input, the function is ignored
+    for named in (False, True):
+        for lvl in ("variant", "field"):
+            for pos in (0, 2):
+                f = Field("String", "rest" if named else "", ["dw_string"] if lvl == "field" else [])
+                d = Variant("CatchAll", "named" if named else "tuple", [f], ([DEFAULT, dw("dw_string")] if pos else [dw("dw_string"), DEFAULT]) if lvl == "variant" else [DEFAULT])
+                vs = [clone_v(v) for v in ORD]
+                vs.insert(pos, d)
+                items.append(("default+default_with", Item("E", vs)))
     # both in one enum
     items.append(("both", Item("E", [Variant("T", "tuple", [Field("String")], [TRANSPARENT]),
                                      Variant("D", "tuple", [Field("String")], [DEFAULT]), clone_v(ORD[0])])))
